@@ -268,7 +268,7 @@ PROPS["C01"] = dict(
     assumptions=_STATE_ASSUMPTIONS,
     undecided=["polygon-level geometry ('interiors intersect iff two non-parallel closed edges meet') and rounding at exactly aligned configurations (see C12)",
                    "ShapeT::far_apart — 'copies whose centres are more than 2R apart do not overlap' — is a contract on the shape implementors: for the real shapes it rests on the enclosing-radius clauses of unit pairs and Z:disc-meaning; their combination per shape is not a machine-checked step",
-                   "the composition lemma c01.anywhere imports other units' clauses in restated form (wrapped = positions/periodic.range of unit geom, img_of = is_image of unit geom, cart_of = isometry.* of unit geom): that the restatements match is by inspection",
+                   "the composition lemma c01.anywhere takes clauses of unit geom as hypotheses (positions.in_cell, isometry.cart, images.*): both units state them with the same predicates of prelude/lattice_spec.rs (in_cell, is_cart, is_image — single source), but that the hypothesis of the lemma is discharged by those clauses for the state at hand is a hand-over between units, not a machine-checked step",
                    "reachability along optimisation histories is C06/C20 (the optimiser only keeps scored states)"],
 )
 PROPS["C03"] = dict(
@@ -289,7 +289,7 @@ PROPS["C08"] = dict(
                 "its bounds at every step and at both exits (inv.wf, exit*.held), and that the final assert (defined score) cannot fail. Kani proves the same bounds, the frame (a parameter without a handle keeps its bits: the cell stays in its family) "
                 "and the clamp on the real pointers for all bit patterns, which also gives chaining: bounds re-derived from in-range values are sub-ranges.",
     assumptions=_OPT_ASSUMPTIONS + _GEOM_ASSUMPTIONS[2:],
-    undecided=["'every supported group with any shape starts from a valid state': Verus proves on the real PackedState::initialise / from_family / from_wyckoff that the initial parameters are in range (ratio 1, angle pi/2 or pi/3, positions -1/2+1/(2N), length 4RN >= 0.01 when R >= 0.0025/N); that the initial copies do not overlap (defined score) is NOT proved",
+    undecided=["'every supported group with any shape starts from a valid state': Verus proves on the real PackedState::initialise / from_family / from_wyckoff that the initial parameters are in range (ratio 1, angle pi/2 or pi/3, positions -1/2+1/(2N), length 4RN >= 0.01 when R >= 0.0025/N); Kani checks on the ITA tables that at that position all copies and lattice images are more than 1/(2N) apart in fractional coordinates (k_tables_axioms_<g>); Verus composes (c08.initial, a counted lemma obligation in unit state): in the square cell of side 4RN such copies are more than 2R apart, so by the shape contract far_apart nothing the overlap test looks at overlaps and the score is defined. The hand-over of 'table = ITA' (C16) and 'placement = wrap(g_k T)' (C15) into the lemma's separation hypothesis is by inspection",
                ],
 )
 _CLI_ASSUMPTIONS = [
